@@ -272,11 +272,32 @@ pub fn run_case(case: &Case) -> Result<(bool, Vec<&'static str>), Failure> {
         drop(sim);
         return Err(f);
     }
+    // module ids as declared, to compare the lookups after the run with
+    let ids_before: Vec<Option<des::net::module::ModuleId>> = t.path.iter().map(|p| sim.get(&ObjectPath::from(p.as_str())).map(|m| m.id())).collect();
     let rt = Builder::seeded(7).quiet().build(sim.freeze());
     let res = rt.run();
     let log = net::log_take();
     let ok = res.is_ok();
+    // the tree is still the declared one after the run: every path resolves to the module that was declared there,
+    // whether that module is still active, shut itself down or panicked
+    let mut after: Result<(), Failure> = Ok(());
+    if let Ok((sim_after, _, _)) = &res {
+        for (i, p) in t.path.iter().enumerate() {
+            let got = sim_after.get(&ObjectPath::from(p.as_str())).map(|m| m.id());
+            if got != ids_before[i] && after.is_ok() {
+                after = Err(Failure::new(
+                    "lookup-missing",
+                    format!(
+                        "after the run, module '{p}'{} resolves to {got:?}; it was declared with id {:?}",
+                        if t.shuts_down[i] && t.stages[i] >= 1 { " (which shut itself down)" } else { "" },
+                        ids_before[i]
+                    ),
+                ));
+            }
+        }
+    }
     drop(res);
+    after?;
     // a module that reaches its delayed message and panics there makes run() return an error, and only that
     let panicked: Vec<bool> = (0..n).map(|i| t.panics[i] && t.stages[i] >= 1).collect();
     let any_panic = panicked.iter().any(|p| *p);
@@ -383,7 +404,7 @@ impl Prop for C12 {
          generated valid order (parents first, otherwise by generated priorities), per-module stage count 0..3 (for some modules changed through the module handle after the node was created), optionally a module that panics in its delayed handler (run() then reports it and every other module is still torn down once), plus duplicate and orphan insertions \
          under catch_unwind at generated points. Oracle: at_sim_start log == for stage in 0..max: depth-first pre-order (siblings in creation order) \
          filtered by stage < stages(m); all starts before the first event; at_sim_end exactly once per module after the last event; documented \
-         panics for duplicate / orphan and the builder stays usable; parent()/child()/path()/name()/Sim::nodes() agree with the declared tree. \
+         panics for duplicate / orphan and the builder stays usable; parent()/child()/path()/name()/Sim::nodes() agree with the declared tree (compared by module id), and after the run every path still resolves to the module declared there. \
          Non-trivial iff some module has >= 2 stages AND children of different parents are interleaved in the insertion order."
             .into()
     }
